@@ -2,7 +2,7 @@
    This is what the OCaml driver calls; each command evaluates model functions on a case that the
    Python harness also runs on the rebuilt implementation. *)
 From OptreeModel Require Export Wire Flatten Unflatten Spec Ops Registry Pickle Accessor.
-From OptreeModel Require Ravel Dataclass Typing Faults Depth Alias Conc ArraySpec Construct.
+From OptreeModel Require Ravel Dataclass Typing Faults Depth Alias Conc ArraySpec Construct Walk.
 
 Definition bad : sexp := SL [SI 2].   (* undecodable input: a harness error, never a verdict *)
 
@@ -416,6 +416,23 @@ Definition cmd_validate (regs : list reg) (nl : bool) (nsp : Z) (ns : list node)
   | Err e => enc_err e
   end.
 
+(* cmd 24: PyTreeSpec.traverse with recording leaf / node functions *)
+Definition wfun_of (is_leaf_fn : bool) (code : Z) : option Walk.wfun :=
+  if Z.eqb code 0 then None
+  else Some (fun i x =>
+    if Z.eqb code 1 then Ok x
+    else if Z.eqb code 2 then Ok (Node (if is_leaf_fn then HTuple else HList) [x])
+    else if Nat.eqb i (Z.to_nat (code - 100)) then Err (UserExn 77) else Ok x).
+Definition enc_wev (e : Walk.wev) : sexp :=
+  match e with Walk.WLeaf x => SL [SI 0; enc_obj x] | Walk.WNode x => SL [SI 1; enc_obj x] end.
+Definition cmd_traverse_fn (c : cfg) (o : obj) (fl fn : Z) : sexp :=
+  match flatten c o with
+  | Err e => enc_err e
+  | Ok (ls, sp) =>
+    let '(r, tr) := Walk.traverse (wfun_of true fl) (wfun_of false fn) sp ls in
+    SL [SI 0; enc_res enc_obj r; SL (map enc_wev tr)]
+  end.
+
 Definition run (s : sexp) : sexp :=
   match s with
   | SL [SI 1; c; o] =>
@@ -531,6 +548,11 @@ Definition run (s : sexp) : sexp :=
   | SL [SI 23; c; SI nl; SI nsp; arr] =>
     match dec_cfg c, dec_pnode_arr arr with
     | Some c', Some ns => cmd_validate (c_reg c') (negb (Z.eqb nl 0)) nsp ns
+    | _, _ => bad
+    end
+  | SL [SI 24; c; o; SI fl; SI fn] =>
+    match dec_cfg c, dec_obj o with
+    | Some c', Some o' => cmd_traverse_fn c' o' fl fn
     | _, _ => bad
     end
   | SL [SI 17; c; o] =>
